@@ -71,14 +71,16 @@ deriving DecidableEq, Repr
 
 def Emit.internal (e : Emit) : Bool := e.f.internal || e.asInternal
 
-/-- CppCheckLogger: mExitCode, mErrorList, and what was forwarded to mErrorLogger (oldest first) -/
+/-- CppCheckLogger: mExitCode, mErrorList, mSuppressedErrorList (9e24c55: suppressed findings have a duplicate filter of
+    their own) and what was forwarded to mErrorLogger (oldest first) -/
 structure LState where
   exit : Bool
   seen : List Nat
+  seenSup : List Nat
   out : List Emit
 deriving DecidableEq, Repr
 
-def LState.init (exit : Bool) : LState := ⟨exit, [], []⟩
+def LState.init (exit : Bool) : LState := ⟨exit, [], [], []⟩
 
 /-- `CppCheckLogger::reportErr` -/
 def loggerStep (o : Opts) (useGlobal : Bool) (s : LState) (f : Finding) : LState :=
@@ -93,9 +95,12 @@ def loggerStep (o : Opts) (useGlobal : Bool) (s : LState) (f : Finding) : LState
         { s with exit := true, out := s.out ++ [⟨f, expl1⟩] }
       else s
     if f.emptyText then s1
-    else if !o.emitDuplicates && s1.seen.contains f.key then s1
+    -- `if (!emitDuplicates && !(suppressed ? mSuppressedErrorList : mErrorList).emplace(errmsg).second) return;`
+    else if !o.emitDuplicates && (if nomsg1 then s1.seenSup else s1.seen).contains f.key then s1
     else
-      let s2 : LState := if o.emitDuplicates then s1 else { s1 with seen := f.key :: s1.seen }
+      let s2 : LState :=
+        if o.emitDuplicates then s1
+        else if nomsg1 then { s1 with seenSup := f.key :: s1.seenSup } else { s1 with seen := f.key :: s1.seen }
       if nomsg1 then s2
       else
         -- `if (!nofail.isSuppressed(errorMessage) && !nomsg.isSuppressed(errorMessage)) mExitCode = 1;`
